@@ -49,6 +49,53 @@ def gen_case(rng, i):
             "reserve": rng.choice([0, 0, 1, 13, 300, 2000])}
 
 
+def chead(n):
+    return 1 if n < 24 else 2 if n < 256 else 3 if n < 65536 else 5 if n < (1 << 32) else 9
+
+
+def excls_size(ex):
+    return chead(len(ex)) + sum(1 + 6 + chead(s) + 7 + chead(l) for s, l in ex)
+
+
+def boundary_cases(rng, plen_guess=3516):
+    """exclusion lists whose CBOR size is dummy size + d for every d in -10..+10 (the padding / rejection boundary)"""
+    out = []
+    dummy = excls_size([[0, 2]] * 10)
+    for fmt, fx, at, limit in ASSETS[:1]:
+        for d in range(-10, 11):
+            for _try in range(400):
+                k = rng.randrange(5, 11)
+                ex, pos = [], 10000
+                for _ in range(k):
+                    gap = rng.choice([rng.randrange(1, 200), rng.randrange(200, 60000)])
+                    s = pos + gap
+                    l = rng.choice([1, 5, 23, 24, 100, 255, 256, 300])
+                    if s + l >= limit:
+                        break
+                    ex.append([s, l])
+                    pos = s + l
+                if rng.random() < 0.5:
+                    ex = [[0, 1]] + ex
+                if excls_size([[at, plen_guess]] + ex) == dummy + d:
+                    out.append({"format": fmt, "fixture": fx, "embed_at": at, "excl": ex, "title": "t", "alg": "ed25519", "reserve": 0, "family": f"boundary{d:+d}"})
+                    break
+    return out
+
+
+def segment_cases(impl_probe, step=7):
+    """JPEG: manifest definitions whose placeholder sits around the 64000-byte APP11 segment boundary"""
+    out = []
+    p0 = impl_probe.get("placeholder_len")
+    if not p0:
+        return out
+    for target in range(63940, 64240, step):
+        tl = target - p0 + 1
+        if tl > 0:
+            out.append({"format": "image/jpeg", "fixture": "earth_apollo17.jpg", "embed_at": 2, "excl": [[100000, 5]],
+                        "title": "t" * tl, "alg": "ed25519", "reserve": 0, "family": "segment"})
+    return out
+
+
 def corpus():
     p = os.path.join(common.VERIF, "corpus", "C15.jsonl")
     return [json.loads(l) for l in open(p) if l.strip()] if os.path.exists(p) else []
@@ -111,7 +158,9 @@ def run(ctx):
     if ctx.replay:
         cases = [ctx.replay["case"]] if "case" in ctx.replay else [d["case"] for d in ctx.replay.get("disagreements", [])]
     else:
-        cases = corpus() + [gen_case(ctx.rng, 0) for _ in range(60 if ctx.quick() else 1200)]
+        cases = corpus() + boundary_cases(ctx.rng) + [gen_case(ctx.rng, 0) for _ in range(40 if ctx.quick() else 1200)]
+        probe = common.run_harness("c15", [{"id": 0, "format": "image/jpeg", "fixture": "earth_apollo17.jpg", "embed_at": 2, "excl": [], "title": "t", "alg": "ed25519", "reserve": 0}])[0]
+        cases += segment_cases(probe, step=(9 if ctx.quick() else 1))
     for i, c in enumerate(cases):
         c["id"] = i
     stats, distinct = evaluate(ctx, cases)
@@ -123,8 +172,10 @@ def run(ctx):
 
 def search(ctx):
     common.build_harness()
-    cases = [gen_case(ctx.rng, 0) for _ in range(600)]
-    for c in cases:
+    cases = [gen_case(ctx.rng, 0) for _ in range(300)] + boundary_cases(ctx.rng)
+    probe = common.run_harness("c15", [{"id": 0, "format": "image/jpeg", "fixture": "earth_apollo17.jpg", "embed_at": 2, "excl": [], "title": "t", "alg": "ed25519", "reserve": 0}])[0]
+    cases += segment_cases(probe, step=2)
+    for c in cases[:300]:
         c["excl"] += [[ctx.rng.randrange(0, 200000), 1] for _ in range(ctx.rng.randrange(0, 6))]
     for i, c in enumerate(cases):
         c["id"] = i
